@@ -20,6 +20,26 @@ Proof.
   discriminate.
 Qed.
 
+(* the OPEN a session writes (connect: sendOpen(conn, s.MyASN, routerID, *s.HoldTime))
+   carries the configured AS number and hold time -- 90 only for a nil HoldTime,
+   an explicit 0 stays 0 and then there is no keepalive timer *)
+Theorem session_open_decodes c rid bs w4 :
+  my_asn c < 4294967296 -> wf_ip4 rid -> session_hold c < 65536 -> (session_hold c = 0 \/ 3 <= session_hold c) ->
+  enc_open (my_asn c) rid (session_hold c) = Some bs ->
+  dec_msg w4 bs = Some (intended_open (my_asn c) rid (session_hold c)).
+Proof. intros Ha Hr Hh Hh' He. exact (proj1 (open_roundtrip _ _ _ _ w4 Ha Hr Hh Hh' He)). Qed.
+
+Lemma session_hold_spec c :
+  (cfg_hold c = None -> session_hold c = 90) /\
+  (forall h, cfg_hold c = Some h -> session_hold c = h) /\
+  (cfg_hold c = Some 0 -> forall ph, keepalive_period c ph = None).
+Proof.
+  unfold keepalive_period, session_hold. split; [|split].
+  - intros E. rewrite E. reflexivity.
+  - intros h E. rewrite E. reflexivity.
+  - intros E ph. rewrite E. rewrite N.min_0_l. reflexivity.
+Qed.
+
 (* whatever UPDATE a flush writes on an established connection, the peer --
    parsing AS_PATH with the width IT announced on this connection -- reads
    exactly the intended route *)
@@ -57,7 +77,7 @@ Lemma established_can_encode_refuted_prefix :
     len (a_comms a) <= 63 /\ forallb is_legacy (a_comms a) = true /\
     enc_update (my_asn c) (ibgp_of c) fb nh a = None.
 Proof.
-  exists {| my_asn := 65536; peer_asn := 64999; universe := [] |}, 64999, false, [127; 0; 0; 1],
+  exists {| my_asn := 65536; peer_asn := 64999; universe := []; cfg_hold := None |}, 64999, false, [127; 0; 0; 1],
     {| a_pfx := {| p_ip := [10; 20; 0; 0]; p_len := 24 |}; a_lp := 0; a_comms := [] |}.
   split; [reflexivity|]. split.
   { split; [cbn; lia|]. split; [split; [reflexivity|]; repeat constructor|].
@@ -66,5 +86,5 @@ Proof.
 Qed.
 
 Lemma hs_accept_65536_fixed :
-  hs_accept {| my_asn := 65536; peer_asn := 64999; universe := [] |} 64999 false = false.
+  hs_accept {| my_asn := 65536; peer_asn := 64999; universe := []; cfg_hold := None |} 64999 false = false.
 Proof. reflexivity. Qed.
